@@ -7,15 +7,17 @@ package sftp
 import (
 	"fmt"
 	"os"
+	"os/user"
 	"sort"
 	"strings"
 	"syscall"
+	"time"
 )
 
 func init() {
 	vfRegister(&vfProp{
 		id:       "C16",
-		classes:  []string{"os", "rs", "rs", "rs-alloc", "inmem", "rs-wire"},
+		classes:  []string{"os", "rs", "rs", "rs-alloc", "inmem", "rs-wire", "os-wire"},
 		gen:      c16Gen,
 		exec:     c16Exec,
 		maxSteps: 400000,
@@ -68,6 +70,23 @@ func c16Gen(class string, seed uint64, tier string) *vfScenario {
 		sc.Cfg["hopt"] = int64([]int{0, 128}[rng.IntN(2)])
 		sc.Cfg["window"] = int64([]int{0, 0, 2, 4}[rng.IntN(4)])
 		sc.Cfg["sites"] = int64(1 + rng.IntN(3))
+		if rng.IntN(2) == 0 {
+			// a READ sent first whose backend call the scheduler holds back: the listing replies behind it wait,
+			// finished but not yet marshalled, in the packet manager while the worker goes on
+			sc.Cfg["blocker"], sc.Cfg["parkdata"] = 1, 1
+		}
+		return sc
+	case "os-wire":
+		// the same against the os-backed server (batches of 128)
+		sc.Cfg["kind"], sc.Cfg["wire"] = 0, 1
+		sc.Cfg["alloc"] = int64(rng.IntN(2))
+		sc.Cfg["ndirs"] = int64(2 + rng.IntN(2))
+		sc.Cfg["n"] = int64(rng.IntN(300))
+		sc.Cfg["window"] = int64([]int{0, 0, 2, 4}[rng.IntN(4)])
+		sc.Cfg["sites"] = int64(1 + rng.IntN(3))
+		if rng.IntN(2) == 0 {
+			sc.Cfg["blocker"], sc.Cfg["sites"] = 1, int64(1+2*rng.IntN(2))
+		}
 		return sc
 	case "inmem":
 		sc.Cfg["kind"] = 3
@@ -122,12 +141,26 @@ func c16Wire(r *vfRun) {
 	n := int(sc.cfg("n", 3))
 	prog := []vfOp{{K: "init", A: 3}}
 	sizes := make([]int, nd)
+	kind0 := sc.cfg("kind", 1) == 0
 	for d := 0; d < nd; d++ {
 		sizes[d] = (n + d*(B+1)) % (3*B + 3)
+		if kind0 {
+			sizes[d] = []int{n % 300, (n * 7) % 40, 130 + n%5, 3}[d%4]
+		}
 		prog = append(prog, vfOp{K: "opendir", P: fmt.Sprintf("/w%d", d), H: d})
 	}
+	blocker := sc.cfg("blocker", 0) != 0
+	if blocker {
+		prog = append(prog, vfOp{K: "open", P: "/f0", A: 1, H: 9})
+	}
 	prog = append(prog, vfOp{K: "wait"})
+	if blocker {
+		prog = append(prog, vfOp{K: "read", H: 9, Off: 0, N: 10})
+	}
 	rounds := 3*B + 3 + 2 // enough even if every batch comes back with a single entry
+	if kind0 {
+		rounds = 300/128 + 3
+	}
 	for i := 0; i < rounds; i++ {
 		for d := 0; d < nd; d++ {
 			prog = append(prog, vfOp{K: "readdir", H: d})
@@ -138,23 +171,43 @@ func c16Wire(r *vfRun) {
 	}
 	s := vfStartSession(r, prog)
 	defer s.cleanup()
-	if s.fs == nil {
+	want := make([]map[string]int64, nd)
+	if kind0 {
+		if s.root == "" {
+			r.res.Skipped = "invalid-program"
+			return
+		}
+		for d := 0; d < nd; d++ {
+			dir := fmt.Sprintf("%s/w%d", s.root, d)
+			os.Mkdir(dir, 0o755)
+			want[d] = map[string]int64{}
+			for i := 0; i < sizes[d]; i++ {
+				name := fmt.Sprintf("d%d-e%03d", d, i)
+				os.WriteFile(dir+"/"+name, make([]byte, (7*d+i)%40), os.FileMode(0o600+(i*37)%0o200))
+				os.Chtimes(dir+"/"+name, time.Unix(1000000000, 0), time.Unix(1000000000+int64(i)*86400*40, 0))
+				want[d][name] = int64((7*d + i) % 40)
+			}
+		}
+	} else if s.fs == nil {
 		r.res.Skipped = "invalid-program"
 		return
 	}
-	want := make([]map[string]int64, nd)
-	s.fs.mu.Lock()
-	for d := 0; d < nd; d++ {
+	if s.fs != nil {
+		s.fs.mu.Lock()
+	}
+	for d := 0; d < nd && s.fs != nil; d++ {
 		dir := fmt.Sprintf("/w%d", d)
 		s.fs.nodes[dir] = &sfNode{kind: 'd', mode: os.ModeDir | 0o755, mtime: 946684800}
 		want[d] = map[string]int64{}
 		for i := 0; i < sizes[d]; i++ {
 			name := fmt.Sprintf("d%d-e%03d", d, i)
-			s.fs.nodes[dir+"/"+name] = &sfNode{kind: 'f', data: make([]byte, (7*d+i)%40), mode: 0o600, mtime: 1000000000 + int64(i), uid: uint32(100*d + i)}
+			s.fs.nodes[dir+"/"+name] = &sfNode{kind: 'f', data: make([]byte, (7*d+i)%40), mode: os.FileMode(0o600 + (i*37)%0o200), mtime: 1000000000 + int64(i)*86400*40, uid: uint32(100*d + i), gid: uint32(5 + i), shape: byte((d + i) % 4)}
 			want[d][name] = int64((7*d + i) % 40)
 		}
 	}
-	s.fs.mu.Unlock()
+	if s.fs != nil {
+		s.fs.mu.Unlock()
+	}
 	sim := s.sim
 	sim.run(nil)
 	if sim.failed() {
@@ -164,6 +217,28 @@ func c16Wire(r *vfRun) {
 	if sim.failed() {
 		r.sim.viol.Class = "C16/" + r.sim.viol.Class[4:]
 		return
+	}
+	now := time.Now()
+	lookup := func(id string, group bool) string {
+		if kind0 {
+			if group {
+				if g, err := user.LookupGroupId(id); err == nil {
+					return g.Name
+				}
+				return id
+			}
+			if u, err := user.LookupId(id); err == nil {
+				return u.Username
+			}
+			return id
+		}
+		if sc.cfg("hopt", 0)&128 == 0 {
+			return id
+		}
+		if group {
+			return "g" + id
+		}
+		return "u" + id
 	}
 	got := make([]map[string]int, nd)
 	ended := make([]bool, nd)
@@ -193,6 +268,11 @@ func c16Wire(r *vfRun) {
 					return
 				}
 				got[d][e.Name]++
+				// the long name of the entry agrees with its structured attributes (owner, group, size, date, mode)
+				if cl, msg := c17CheckLong(sim, e, now, lookup); msg != "" {
+					r.fail("C16/wrong-attributes", "long-"+cl, "directory %d: %s", d, msg)
+					return
+				}
 			}
 		case p.Type == wtStatus && p.Code == wsEOF:
 			ended[d] = true
@@ -206,7 +286,12 @@ func c16Wire(r *vfRun) {
 			r.fail("C16/listing-never-terminates", "wire-liveness", "directory %d (%d entries, batch %d): %d READDIR requests did not reach the end of the listing", d, sizes[d], B, rounds)
 			return
 		}
+		var names []string
 		for name := range want[d] {
+			names = append(names, name)
+		}
+		sort.Strings(names)
+		for _, name := range names {
 			if got[d][name] != 1 {
 				cl := "C16/entry-lost"
 				if got[d][name] > 1 {
